@@ -40,12 +40,6 @@ pub enum Exp<T> {
 }
 
 impl<T> Exp<T> {
-    pub fn value(&self) -> Option<&T> {
-        match self {
-            Exp::MustErr(_) => None,
-            Exp::MustOk(v) | Exp::Either(v, _) => Some(v),
-        }
-    }
     pub fn describe(&self) -> String {
         match self {
             Exp::MustErr(w) => format!("must fail: {w}"),
